@@ -2045,7 +2045,9 @@ func (i *Iterator) Advance(key search.Key) bool {
 	if i.header.Namespaces[ns].TypeAndNamespace > nn {
 		i.ns = ns
 		i.i = i.header.Namespaces[i.ns].Index
-		i.value, _ = binary.Uvarint(i.ids[i.i:])
+		var n int
+		i.value, n = binary.Uvarint(i.ids[i.i:])
+		i.i += n // Consume the value, otherwise the following Next() returns it again
 		return true
 	}
 
